@@ -248,7 +248,10 @@ class Gen(object):
         elif c < 20:
             self.funcdef(ind, vars_, depth)
         elif c == 20:
-            self.classdef(ind, vars_, depth)
+            if self.chance(0.5) and depth == 0:
+                self.closure_nest(ind)
+            else:
+                self.classdef(ind, vars_, depth)
         elif c == 21:
             self.emit(ind, "if 0:")
             self.block(ind + 1, vars_, depth + 1, in_loop, in_func)
@@ -433,6 +436,64 @@ class Gen(object):
         if self.chance(0.3):
             self.emit(ind, "print(ascii(%s.__doc__), %s.__name__)" % (name, name))
 
+    def closure_nest(self, ind):
+        """Three-level closure with cells and free variables in varying first-use orders, parameter cells, class cells and
+        cells that only dead code captures (they stay in co_cellvars without any instruction referencing them)."""
+        r = self.r
+        u = self.fresh("c")
+        pool = ["a", "zz", "fn", "arg", "m", "b0", "k9", "Aa", "_u", "y"]
+        r.shuffle(pool)
+        v = [n + u for n in pool[:6]]          # outer locals / params
+        outer = "outer" + u
+        sig = self.pick(["%s", "%s, %s=2" % (v[0], v[1]), "%s, *%s" % (v[0], v[1]), "%s, *, %s=3" % (v[0], v[1]), "*%s, **%s" % (v[0], v[1])])
+        if sig == "%s":
+            sig = v[0]
+        self.emit(ind, "def %s(%s):" % (outer, sig))
+        body = []
+        body.append("%s = 1 if not isinstance(%s, int) else %s" % (v[0], v[0], v[0]))
+        for n in v[1:5]:
+            body.append("%s = %d" % (n, r.randrange(9)))
+        dead_outer = r.random() < 0.5
+        if dead_outer:
+            body.append("if 0:\n%s    %s = 5\n%s    def dead%s(): return %s" % ("    " * (ind + 1), v[5], "    " * (ind + 1), u, v[5]))
+        for b in body:
+            self.emit(ind + 1, b)
+        mid = "mid" + u
+        mv = ["mq" + u, "mr" + u, "ms" + u]
+        self.emit(ind + 1, "def %s(%s=1, *w%s):" % (mid, mv[0], u))
+        stmts = []
+        frees = r.sample(v[:5], r.choice([1, 2, 3]))
+        stmts.append("%s = %s + %s" % (mv[1], " + ".join(frees), mv[0]))         # free variables used, cell mv[1] created
+        stmts.append("%s = len(w%s)" % (mv[2], u))
+        if r.random() < 0.6:
+            # a cell of mid that only dead code captures
+            stmts.append("if 0:\n%s    dx%s = 2\n%s    def deadm%s(): return dx%s" % ("    " * (ind + 2), u, "    " * (ind + 2), u, u))
+        if r.random() < 0.4:
+            stmts.append("class K%s:\n%s    def meth(self): return (__class__.__name__, %s, %s)\n%sprint(K%s().meth())" % (
+                u, "    " * (ind + 2), frees[0], mv[1], "    " * (ind + 2), u))
+        inner_reads = r.sample(v[:5] + mv[1:], 3)
+        stmts.append("def inn%s(t=%s):\n%s    return (%s, t)" % (u, r.choice(frees), "    " * (ind + 2), ", ".join(inner_reads)))
+        if r.random() < 0.5:
+            stmts.append("lam%s = lambda: (%s, %s)\n%sprint(lam%s())" % (u, r.choice(v[:5]), mv[2], "    " * (ind + 2), u))
+        if r.random() < 0.4:
+            stmts.append("def wr%s():\n%s    nonlocal %s\n%s    %s += 1\n%s    return %s" % (
+                u, "    " * (ind + 2), mv[1], "    " * (ind + 2), mv[1], "    " * (ind + 2), mv[1]) + "\n%sprint(wr%s())" % ("    " * (ind + 2), u))
+        # vary the order: free-variable uses before or after the cells are first referenced
+        head, tail = stmts[:2], stmts[2:]
+        r.shuffle(tail)
+        if r.random() < 0.5:
+            head.reverse()
+        for st in head + tail:
+            self.emit(ind + 2, st)
+        self.emit(ind + 2, "return inn%s()" % u)
+        self.emit(ind + 1, "return %s(%s)" % (mid, r.choice(["", "2", "2, 3, 4"])))
+        call = {0: "1"}.get(0)
+        if sig.startswith("*"):
+            call = "1, 2, z=3"
+        elif "*, " in sig:
+            call = "1, %s=4" % v[1]
+        self.emit(ind, "print(%s(%s))" % (outer, call))
+
     def classdef(self, ind, vars_, depth):
         name = self.fresh("C")
         base = self.pick(["", "(object)", "(Exception)", "(dict)"])
@@ -470,6 +531,8 @@ class Gen(object):
         if self.chance(0.3):
             self.emit(0, "def _ann(a: int, b: 'str' = 1) -> None: x: int = a; return x")
             self.emit(0, "print(_ann(1), sorted(_ann.__annotations__))")
+        if self.chance(0.7):
+            self.closure_nest(0)
         self.emit(0, "print('end', g0, g1, g2, g3)")
         return "\n".join(self.lines) + "\n"
 
